@@ -193,6 +193,22 @@ theorem src_negative_iff (f : Fmt) (fac cs cn v : Fl) :
   cases h : durOfTimeFl f fac cs cn v <;>
     simp [embedDur, cOk, cErr, c_TryFromError_NegativeDuration, c_TryFromError_Overflow]
 
+/-- **integer storage: the regenerated body is the exact model `durOfTimeInt`, panics included** — so
+    `neg_iff_int`, the finding F10 (`int_long_base_panics`) and the exactness theorems for decimal sub-second
+    bases (`int_decimal_base`) are statements about what the *source* computes (with `get`/`new`/`%` of integer
+    quantities read as exact rational conversion truncated toward zero, panicking on a zero divisor) -/
+theorem src_try_from_time_int (fac cs cn : Rat) (v : Int) :
+    run (envDurP (intOps fac cs cn)) si_time_TryFrom_Time_for_Duration_try_from [.host (.q v)] =
+      (embedDur (durOfTimeInt fac cs cn v), []) := try_from_time_int fac cs cn v
+
+/-- F10, for the source: with a base unit longer than a second the regenerated body panics for every
+    non-negative input -/
+theorem src_int_long_base_panics (fac cs cn : Rat) (v : Int) (hv : 0 ≤ v) (hcs : cs ≠ 0) (hf : fac ≠ 0)
+    (hlong : ratTrunc (cs / fac) = 0) :
+    (run (envDurP (intOps fac cs cn)) si_time_TryFrom_Time_for_Duration_try_from [.host (.q v)]).1 = .panic := by
+  rw [try_from_time_int, int_long_base_panics fac cs cn v hv hcs hf hlong]
+  rfl
+
 theorem src_try_from_duration {V : Type} (o : DurOps V) (secs nanos : Nat) :
     run (envDur o) si_time_TryFrom_Duration_for_Time_try_from [.host (.dur secs nanos)] =
       (embedTime (timeSpec o secs nanos), []) := try_from_duration_eq o secs nanos
